@@ -464,23 +464,31 @@ pub fn expt(vm: &mut Vm) -> Result<VCell, Error> {
     let exp = pop_integer(vm)?;
     let x = pop_number(vm)?;
 
-    let exp = match exp.to_u32() {
-        Some(exp) => exp,
+    let power = match exp.to_u32() {
+        Some(exp) => x.pow(exp),
         None => {
             // Beyond u32 only the powers of 0, 1 and -1 can be written down.
             let (zero, one) = (Number::Fixnum(0), Number::Fixnum(1));
             if exp > zero && (x == zero || x == one) {
-                return Ok(x.into());
-            }
-            if exp > zero && x == Number::Fixnum(-1) {
+                x
+            } else if exp > zero && x == Number::Fixnum(-1) {
                 let even = (&exp % &Number::Fixnum(2)).is_some_and(|rem| rem == zero);
-                return Ok(if even { one } else { x }.into());
+                if even {
+                    &x * &x
+                } else {
+                    x
+                }
+            } else {
+                return Err(InvalidSyntax("expt: exponent is too large".into()));
             }
-            return Err(InvalidSyntax("expt: exponent is too large".into()));
         }
     };
 
-    Ok(x.pow(exp).into())
+    // an inexact exponent makes the result inexact (R7RS 6.2.2)
+    match power.to_inexact().filter(|_| !exp.is_exact()) {
+        Some(power) => Ok(power.into()),
+        None => Ok(power.into()),
+    }
 }
 
 pub fn exact_inexact(vm: &mut Vm) -> Result<VCell, Error> {
